@@ -8,7 +8,7 @@ From SV Require Import Common.Int32 C02.Kernels C02deep.Syntax C02deep.Sem C02de
   C02deep.ProofsSem C02deep.ProofsDceSets C02deep.ProofsDce C02deep.ProofsCcpArith C02deep.ProofsCcpRel C02deep.ProofsCcp.
 Open Scope Z_scope.
 
-Definition cx_of (vc : lvc) : cx := mkcx (map (fun p => (fst p, EVar (snd p))) vc) [].
+Definition cx_of (vc : lvc) : cx := mkcx (map (fun p => (fst p, EVar (snd p))) vc) [] [].
 
 Lemma assoc_cx_of x vc : assoc x (cx_v (cx_of vc)) = option_map EVar (assoc x vc).
 Proof.
@@ -148,7 +148,7 @@ Section Lvn.
     assert (Hxv : assoc x vc = None).
     { destruct Hwf as [Hc _]. pose proof (cx_wf_notin_v _ _ x Hc HxD) as H. rewrite assoc_cx_of in H.
       destruct (assoc x vc); [discriminate | reflexivity]. }
-    assert (Ebv : cx_of (lvn_bind_var vc x n) = mkcx ((x, EVar n) :: cx_v (cx_of vc)) []).
+    assert (Ebv : cx_of (lvn_bind_var vc x n) = mkcx ((x, EVar n) :: cx_v (cx_of vc)) [] []).
     { unfold lvn_bind_var. rewrite Hxv. reflexivity. }
     split.
     - split; [|intros y []]. destruct Hwf as [Hc Hbw]. split.
@@ -340,6 +340,21 @@ Section Lvn.
           intros y Hy. cbn. destruct (N.eqb_spec y r) as [->|]; [contradiction | reflexivity].
       + exists et, S. split; [reflexivity|]. split; [split; assumption|]. split; apply incl'_refl.
   Qed.
+
+  Lemma PL_SStruct x tn es : PL (SStruct x tn es).
+  Proof.
+    intros vc bc o vc' bc' S0 H Hsc. cbn [lvn_stmt] in H. cbn [scoped] in Hsc. injection H as <- <- <-.
+    cbn [olist binders defs]. apply plain_keep; [reflexivity|].
+    intros S eo et tr Hi1 HR. cbn [exec].
+    assert (Hes : map (eval w et) (map (lvn_expr vc) es) = map (eval w eo) es).
+    { rewrite map_map. apply map_ext_in. intros a Ha. symmetry. apply (RelL_expr vc bc S eo et a HR).
+      rewrite forallb_forall in Hsc. apply (in_scope_In _ _ _ (Hsc a Ha) Hi1). }
+    rewrite Hes. eexists. split; reflexivity.
+  Qed.
+  Lemma PL_SLateDecl x : PL (SLateDecl x).
+  Proof. intros vc bc o vc' bc' S0 _ Hsc. discriminate Hsc. Qed.
+  Lemma PL_SLateAssign x e : PL (SLateAssign x e).
+  Proof. intros vc bc o vc' bc' S0 _ Hsc. discriminate Hsc. Qed.
 
   Lemma PL_SBreak e : PL (SBreak e).
   Proof.
@@ -614,6 +629,9 @@ Section Lvn.
     - exact PL_SSIf.
     - exact PL_SBreak.
     - exact PL_SWhile.
+    - exact PL_SStruct.
+    - exact PL_SLateDecl.
+    - exact PL_SLateAssign.
     - exact QL_nil.
     - exact QL_cons.
   Qed.
